@@ -868,6 +868,10 @@ def get_charnos(node: ast.AST, source: str, keep_first_indent: bool = False) -> 
     start_position = _get_position(start)
     node_position = _get_position(node)
 
+    if start_position.lineno > len(line_start_charnos):
+        # A position after the last line, i.e. for code that should be appended to the source
+        return Range(len(source), len(source))
+
     start_charno = line_start_charnos[start_position.lineno - 1] + start_position.col_offset
     if getattr(node, "end_lineno", None) is None:
         return Range(start_charno, start_charno)
